@@ -454,8 +454,9 @@ def execInstrs (f : Fixes) (pdLen : Nat) (rd : Nat → Nat) (prices : Prices) (d
 
 /-- how the renter pays and finalises -/
 inductive PayMode where
-  | ok             -- valid ephemeral-account withdrawal of `budget`
-  | refused        -- withdrawal refused before execution (bad signature, expired, zero amount, …)
+  | ok             -- valid payment of `budget` (ephemeral account, or a correct pay-by-contract revision)
+  | refused        -- payment refused before execution (bad signature, expired, zero amount, mismatched output lists, …)
+  | sumOverflow    -- pay-by-contract revision whose output values sum to more than 2^128 (validateStdRevision)
 deriving DecidableEq, Repr
 
 inductive FinMode where
@@ -517,7 +518,8 @@ def settle (f : Fixes) (s : HostState) (r : Request) : ExecOut → Outcome × Ho
 
 /-- `handleRPCExecute` + `programExecutor.Execute/commit/rollback` -/
 def handle (f : Fixes) (s : HostState) (r : Request) : Outcome × HostState :=
-  if admitted s r then
+  if r.pay = .sumOverflow ∧ f.revisionSum = false then (.panic 0 .validateStdRevision, s)
+  else if admitted s r then
     settle f s r (execInstrs f r.pdLen r.rd r.prices r.duration { budget := r.budget, spent := r.initCost } s.roots 0 [] r.prog)
   else (.refused, s)
 
